@@ -402,3 +402,42 @@ Proof.
       * f_equal. apply IHb.
 Qed.
 End MergeMore.
+
+(** every child of a partition over a dense domain is reached by some admissible value *)
+Section Reach.
+Context {V : Type} `{TotalOrder V}.
+Notation cutV := (cut V).
+Context {A : Type}.
+Variable T : V -> Prop.
+
+Lemma lookup_reach_from (C : list cutV) : dense_on T C -> forall (l : list (cutV * A)) cur lo,
+  incl (map fst l) C -> (match lo with None => True | Some c => In c C end) -> sorted_from lo l ->
+  forall a, a = cur \/ In a (map snd l) ->
+  exists x, T x /\ after lo x /\ lookup_from x cur l = a.
+Proof.
+  intros D. induction l as [|[c a'] l IH]; intros cur lo Il Ilo S a Ha.
+  - destruct Ha as [-> | []]. cbn [lookup_from].
+    destruct lo as [c|]; cbn.
+    + destruct (d_above _ _ D c Ilo) as [x [Tx Hx]]. exists x; auto.
+    + destruct (d_some _ _ D) as [x Tx]. exists x; auto.
+  - cbn in S. destruct S as [L S].
+    assert (In c C) as Ic by (apply Il; left; reflexivity).
+    assert (incl (map fst l) C) as Il' by (intros z Hz; apply Il; right; exact Hz).
+    destruct Ha as [-> | Ha].
+    + (* the current child: a value after lo and left of c *)
+      destruct lo as [c0|].
+      * destruct (d_between _ _ D c0 c Ilo Ic L) as [x [Tx [X1 X2]]]. exists x. repeat split; auto. cbn. now rewrite X2.
+      * destruct (d_below _ _ D c Ic) as [x [Tx X]]. exists x. repeat split; auto. cbn. now rewrite X.
+    + destruct (IH a' (Some c) Il' Ic S a) as [x [Tx [X1 X2]]].
+      { cbn in Ha. destruct Ha as [<- | Ha]; auto. }
+      exists x. repeat split; auto.
+      * destruct lo as [c0|]; cbn; auto. eapply not_left_mono; eauto.
+      * cbn in *. now rewrite X1.
+Qed.
+
+Lemma lookup_reach (l : list (cutV * A)) cur : dense_on T (map fst l) -> sorted_from None l ->
+  forall a, a = cur \/ In a (map snd l) -> exists x, T x /\ lookup_from x cur l = a.
+Proof.
+  intros D S a Ha. destruct (lookup_reach_from (map fst l) D l cur None (incl_refl _) I S a Ha) as [x [Tx [_ X]]]. eauto.
+Qed.
+End Reach.
